@@ -122,6 +122,8 @@ def check_treeinfo(ctx, pmt, D, order_seed, tmpdir):
         if onfile != t1:
             problems.append("dump(path) bytes differ from dumps()")
         problems.extend(_diff(E, obs3))
+        from rv import formats as _formats
+        problems.extend(_formats.entry_point_problems(_formats.modules(), "treeinfo", ti, t1, tmpdir))
     except Exception as e:
         problems = ["file round trip raised %s: %s" % (type(e).__name__, e)]
     finally:
